@@ -37,6 +37,65 @@ fn gen_hierarchy(rng: &mut Rng, n: usize) -> Vec<AClass> {
 	out
 }
 
+/// A hierarchy in which classes have several super types INSIDE the jar, listed in random order: diamonds, shared
+/// ancestors reached along several paths, the shared ancestor first / in the middle / last in a parent list.
+/// No external super types (an ancestor outside the jar makes every type test succeed).
+fn gen_dag(rng: &mut Rng, n: usize) -> Vec<AClass> {
+	let mut names: Vec<S> = IN_JAR.iter().map(|s| cps_str(s)).collect();
+	rng.shuffle(&mut names);
+	names.truncate(n);
+	let mut out: Vec<AClass> = vec![];
+	for (k, name) in names.iter().enumerate() {
+		let mut earlier: Vec<S> = names[..k].to_vec();
+		rng.shuffle(&mut earlier);
+		let want = *rng.pick(&[0, 1, 1, 2, 2, 2, 2, 3, 3, 3][..]);
+		let mut parents: Vec<S> = earlier.into_iter().take(want).collect();
+		// sometimes an ancestor of one parent is listed as a direct parent too (redundant edge = shared ancestor)
+		if !parents.is_empty() && rng.chance(1, 3) {
+			let h = Hier::new(&out);
+			let anc: Vec<S> = h.ancestors(rng.pick(&parents[..])).into_iter().collect();
+			if !anc.is_empty() { let a = rng.pick(&anc[..]).clone(); if !parents.contains(&a) { let at = rng.below(parents.len() + 1); parents.insert(at, a); } }
+		}
+		let (super_class, interfaces) = if !parents.is_empty() && rng.chance(1, 2) { (Some(parents[0].clone()), parents[1..].to_vec()) } else { (Some(object()), parents) };
+		out.push(AClass { name: name.clone(), flags: ACC_PUBLIC | ACC_SUPER, super_class, interfaces, methods: vec![] });
+	}
+	rng.shuffle(&mut out);
+	out
+}
+
+/// A synthetic method (usually without the bridge flag) one of whose parameter / return types is an in-jar
+/// ancestor of the delegate's type at that position — or, as a near miss, an in-jar class that is no ancestor.
+fn gen_ancestor_pattern(rng: &mut Rng, jar: &mut Vec<AClass>, ci: usize, h: &Hier, counts: &mut dyn FnMut(&str)) {
+	let jar_names: Vec<S> = jar.iter().map(|c| c.name.clone()).collect();
+	let with_anc: Vec<S> = jar_names.iter().filter(|n| !h.ancestors(n).is_empty()).cloned().collect();
+	if with_anc.is_empty() { counts("pattern:ancestor:no-class-with-ancestors"); return; }
+	let cname = jar[ci].name.clone();
+	let name = cps_str(*rng.pick(&MNAMES[..]));
+	let nparams = rng.range(0, 2);
+	let has_ret = nparams == 0 || rng.chance(1, 2);
+	let slots = nparams + if has_ret { 1 } else { 0 };
+	let hot = rng.below(slots);
+	let mut ds: Vec<S> = vec![]; let mut bs: Vec<S> = vec![];
+	let mut near_miss = false;
+	for i in 0..slots {
+		if i == hot || rng.chance(1, 3) {
+			let t = rng.pick(&with_anc[..]).clone();
+			let anc: Vec<S> = h.ancestors(&t).into_iter().collect();
+			let b = if rng.chance(1, 8) { near_miss = true; rng.pick(&jar_names[..]).clone() } else { rng.pick(&anc[..]).clone() };
+			ds.push(obj(&t)); bs.push(obj(&b));
+		} else { let t = gen_type(rng, &jar_names); ds.push(t.clone()); bs.push(if rng.chance(1, 4) && t.first() == Some(&('L' as u32)) { obj(&object()) } else { t }); }
+	}
+	let (dr, br) = if has_ret { (ds.pop().unwrap(), bs.pop().unwrap()) } else { (cps_str("V"), cps_str("V")) };
+	let sdesc = join_desc(&ds, &dr); let bdesc = join_desc(&bs, &br);
+	counts(if near_miss { "pattern:ancestor-typed-unflagged-maybe-miss" } else { "pattern:ancestor-typed-unflagged" });
+	let dname = if rng.chance(1, 5) { cps_str(*rng.pick(&MNAMES[..])) } else { name.clone() };
+	add_method(&mut jar[ci], AMeth { name: dname.clone(), desc: sdesc.clone(), flags: ACC_PUBLIC, calls: Some(vec![]) }, false);
+	let mut bname = name.clone();
+	if bdesc == sdesc && bname == dname { bname = cps_str("bridge$"); bname.extend(&name); }
+	let flags = *rng.pick(&[ACC_PUBLIC, ACC_PROTECTED, 0][..]) | ACC_SYNTHETIC | if rng.chance(1, 8) { ACC_BRIDGE } else { 0 };
+	add_method(&mut jar[ci], AMeth { name: bname, desc: bdesc, flags, calls: Some(vec![call(CallKind::Virtual, &cname, &dname, &sdesc)]) }, false);
+}
+
 fn gen_type(rng: &mut Rng, jar_names: &[S]) -> S {
 	let base = match rng.below(10) {
 		0..=2 => cps_str(*rng.pick(&PRIMS[..])),
@@ -58,7 +117,19 @@ fn generalise(rng: &mut Rng, h: &Hier, jar_names: &[S], ts: &S, spoil: bool) -> 
 			_ => if is_obj { cps_str("I") } else { obj(&object()) },
 		};
 	}
-	if !is_obj { return ts.clone(); }
+	if !is_obj {
+		// array element covariance as a candidate: `[LA;` seen as `[Ljava/lang/Object;` (same dimensions), as
+		// `Ljava/lang/Object;` or with an ancestor as element type — javac never emits these as erasures the rule
+		// accepts; the rule only accepts equal array types
+		let dims = ts.iter().take_while(|&&c| c == '[' as u32).count();
+		if dims > 0 && ts.get(dims) == Some(&('L' as u32)) && rng.chance(1, 2) {
+			let elem = ts[dims + 1..ts.len() - 1].to_vec();
+			let anc: Vec<S> = h.ancestors(&elem).into_iter().collect();
+			let e2 = match rng.below(3) { 0 if !anc.is_empty() => rng.pick(&anc[..]).clone(), 1 => return obj(&object()), _ => object() };
+			let mut t = vec!['[' as u32; dims]; t.extend(obj(&e2)); return t;
+		}
+		return ts.clone();
+	}
 	let name = ts[1..ts.len() - 1].to_vec();
 	let anc: Vec<S> = h.ancestors(&name).into_iter().collect();
 	match rng.below(6) {
@@ -69,7 +140,8 @@ fn generalise(rng: &mut Rng, h: &Hier, jar_names: &[S], ts: &S, spoil: bool) -> 
 	}
 }
 
-const KINDS: [(&str, usize); 17] = [
+const KINDS: [(&str, usize); 20] = [
+	("shared-delegate", 3), ("indy-extra", 2), ("only-indy", 1),
 	("plain", 5), ("bridge-flagged", 5), ("bridge-unflagged", 5), ("flagged-any-signature", 2), ("not-synthetic", 3),
 	("zero-callees", 2), ("two-callees", 3), ("same-callee-twice", 2), ("array-callee-extra", 2), ("only-array-callee", 1),
 	("arity", 3), ("bad-type", 4), ("private-static-final", 3), ("flagged-private-static-final", 2), ("no-code", 2),
@@ -103,6 +175,22 @@ fn gen_pattern(rng: &mut Rng, jar: &mut Vec<AClass>, ci: usize, h: &Hier, kind: 
 	let sdesc = join_desc(&ps, &rs);
 	let vis = *rng.pick(&[ACC_PUBLIC, ACC_PUBLIC, ACC_PROTECTED, 0][..]);
 	counts(&format!("pattern:{kind}"));
+	if kind == "shared-delegate" {
+		// a second (third, ...) bridge calling the IDENTICAL delegate reference of a bridge the jar already has, placed in a
+		// descendant, an ancestor or an unrelated class: specialized_to_bridge keeps one of them (get_higher_method)
+		let existing: Vec<(S, AMeth)> = jar.iter().flat_map(|c| c.methods.iter().filter(|m| m.is(ACC_SYNTHETIC) && m.calls.as_ref().map(|v| v.len() == 1 && v[0].kind != CallKind::Dynamic).unwrap_or(false)).map(|m| (c.name.clone(), m.clone())).collect::<Vec<_>>()).collect();
+		if existing.is_empty() { counts("pattern:shared-delegate:none-to-share"); return; }
+		let (ecls, em) = rng.pick(&existing[..]).clone();
+		let mut related: Vec<S> = jar_names.iter().filter(|n| h.ancestors(n).contains(&ecls) || h.ancestors(&ecls).contains(*n)).cloned().collect();
+		if related.is_empty() || rng.chance(1, 4) { related = jar_names.clone(); }
+		let target_cls = rng.pick(&related[..]).clone();
+		let ti = jar.iter().position(|c| c.name == target_cls).unwrap();
+		let mut m = em.clone();
+		if rng.chance(1, 2) { m.flags |= ACC_BRIDGE; }
+		if let Some(v) = m.calls.as_mut() { v[0].kind = *rng.pick(&[CallKind::Virtual, CallKind::Special][..]); }
+		if !add_method(&mut jar[ti], m.clone(), allow_dup) { m.name = { let mut n = cps_str("syn$"); n.extend(&em.name); n }; add_method(&mut jar[ti], m, allow_dup); }
+		return;
+	}
 	if kind == "plain" {
 		let calls = if rng.chance(1, 3) { None } else {
 			let mut v = vec![];
@@ -156,6 +244,13 @@ fn gen_pattern(rng: &mut Rng, jar: &mut Vec<AClass>, ci: usize, h: &Hier, kind: 
 		"only-array-callee" => { calls = Some(vec![call(CallKind::Virtual, &cps_str("[Ljava/lang/Object;"), &cps_str("clone"), &cps_str("()Ljava/lang/Object;"))]); flags |= ACC_BRIDGE; }
 		"private-static-final" => { flags = (flags & !(ACC_PUBLIC | ACC_PROTECTED)) | *rng.pick(&[ACC_PRIVATE, ACC_STATIC | ACC_PUBLIC, ACC_FINAL | ACC_PUBLIC, ACC_PRIVATE | ACC_STATIC][..]); }
 		"flagged-private-static-final" => { flags = (flags & !(ACC_PUBLIC | ACC_PROTECTED)) | ACC_BRIDGE | *rng.pick(&[ACC_PRIVATE, ACC_STATIC | ACC_PUBLIC, ACC_FINAL | ACC_PUBLIC][..]); }
+		"indy-extra" => {
+			// invokedynamic instructions beside the one invoke: the rule does not count them
+			let d = call(CallKind::Dynamic, if rng.chance(1, 2) { &cname } else { &dclass }, &cps_str("run"), &cps_str(*rng.pick(&["()Ljava/lang/Runnable;", "(I)V", "(Ljava/lang/Object;)Ljava/lang/Object;"][..])));
+			calls = Some(match rng.below(3) { 0 => vec![d, target.clone()], 1 => vec![target.clone(), d], _ => vec![d.clone(), target.clone(), d] });
+			if rng.chance(1, 2) { flags |= ACC_BRIDGE; }
+		}
+		"only-indy" => { calls = Some(vec![call(CallKind::Dynamic, &cname, &dname, &sdesc)]); if rng.chance(1, 2) { flags |= ACC_BRIDGE; } }
 		"no-code" => { calls = None; flags |= ACC_ABSTRACT; if rng.chance(1, 2) { flags |= ACC_BRIDGE; } }
 		_ => {}
 	}
@@ -166,15 +261,18 @@ fn gen_pattern(rng: &mut Rng, jar: &mut Vec<AClass>, ci: usize, h: &Hier, kind: 
 	}
 }
 
-pub struct JarCfg { pub max_classes: usize, pub max_patterns: usize, pub dups: bool, pub libs: bool }
+pub struct JarCfg { pub max_classes: usize, pub max_patterns: usize, pub dups: bool, pub libs: bool,
+	/// multi-parent hierarchies inside the jar (diamonds) and patterns whose bridge types are ancestors of the delegate's types
+	pub dag: bool }
 
 pub fn gen_jar(rng: &mut Rng, cfg: &JarCfg, counts: &mut dyn FnMut(&str)) -> JarGen {
-	let n = rng.range(1, cfg.max_classes);
-	let mut classes = gen_hierarchy(rng, n);
+	let n = rng.range(if cfg.dag { 4 } else { 1 }, cfg.max_classes);
+	let mut classes = if cfg.dag { gen_dag(rng, n) } else { gen_hierarchy(rng, n) };
 	let h = Hier::new(&classes);
 	let total = rng.range(1, cfg.max_patterns);
 	for _ in 0..total {
 		let ci = rng.below(classes.len());
+		if cfg.dag && rng.chance(3, 4) { gen_ancestor_pattern(rng, &mut classes, ci, &h, counts); continue; }
 		let kind = pick_kind(rng);
 		let dup = cfg.dups && rng.chance(1, 3);
 		gen_pattern(rng, &mut classes, ci, &h, kind, dup, counts);
@@ -286,22 +384,34 @@ pub fn gen_maps(rng: &mut Rng, g: &JarGen, cfg: &MapCfg) -> (MMappings, MMapping
 		if rng.chance(1, 4) { mc.fields.push(MField { desc: cps_str("I"), names: vec![Some(cps_str("f_1")), Some(cps_str("field"))], doc: doc(rng) }); }
 		maps.classes.push(mc);
 	}
-	// the bridge's key named in a super type of the bridge's class only (found through inheritance)
+	// the bridge's key named in a super type of the bridge's class (found through inheritance): in one super type, or —
+	// under different names — in every super type and sometimes in their super types too (the first one in parent-list
+	// order, depth first, decides); then the own entry of the key is sometimes removed
 	for (k, n, d) in inter.clone() {
 		if !rng.chance(1, 6) { continue; }
 		let owner = all.iter().find(|c| cm(&c.name) == k);
 		let Some(owner) = owner else { continue };
-		let sups: Vec<S> = owner.super_class.iter().chain(owner.interfaces.iter()).map(|s| cm(s)).collect();
-		if sups.is_empty() { continue; }
-		let sup = rng.pick(&sups[..]).clone();
-		let idx = match maps.classes.iter().position(|c| c.names[0].as_ref() == Some(&sup)) {
-			Some(i) => i,
-			None => { let mut nm = cps_str("named/S"); nm.extend(cps_str(&maps.classes.len().to_string())); maps.classes.push(MClass { names: vec![Some(sup.clone()), Some(nm)], doc: None, fields: vec![], methods: vec![] }); maps.classes.len() - 1 }
-		};
-		if maps.classes[idx].methods.iter().any(|x| x.names[0].as_ref() == Some(&n) && x.desc == d) { continue; }
-		ncount += 1;
-		let mut to = cps_str("inherited"); to.extend(cps_str(&ncount.to_string()));
-		maps.classes[idx].methods.push(MMeth { desc: d, names: vec![Some(n), Some(to)], doc: None, params: vec![] });
+		let direct: Vec<&S> = owner.super_class.iter().chain(owner.interfaces.iter()).collect();
+		if direct.is_empty() { continue; }
+		let mut targets: Vec<S> = vec![];
+		if rng.chance(1, 2) { targets.push(cm(*rng.pick(&direct[..]))); }
+		else {
+			for s in &direct {
+				if rng.chance(4, 5) { targets.push(cm(s)); }
+				if let Some(sc) = all.iter().find(|c| &c.name == *s) { for s2 in sc.super_class.iter().chain(sc.interfaces.iter()) { if rng.chance(1, 2) { targets.push(cm(s2)); } } }
+			}
+			if rng.chance(1, 2) { if let Some(own) = maps.classes.iter_mut().find(|c| c.names[0].as_ref() == Some(&k)) { own.methods.retain(|x| !(x.names[0].as_ref() == Some(&n) && x.desc == d)); } }
+		}
+		for sup in targets {
+			let idx = match maps.classes.iter().position(|c| c.names[0].as_ref() == Some(&sup)) {
+				Some(i) => i,
+				None => { let mut nm = cps_str("named/S"); nm.extend(cps_str(&maps.classes.len().to_string())); maps.classes.push(MClass { names: vec![Some(sup.clone()), Some(nm)], doc: None, fields: vec![], methods: vec![] }); maps.classes.len() - 1 }
+			};
+			if maps.classes[idx].methods.iter().any(|x| x.names[0].as_ref() == Some(&n) && x.desc == d) { continue; }
+			ncount += 1;
+			let mut to = cps_str("inherited"); to.extend(cps_str(&ncount.to_string()));
+			maps.classes[idx].methods.push(MMeth { desc: d.clone(), names: vec![Some(n.clone()), Some(to)], doc: None, params: vec![] });
+		}
 	}
 	rng.shuffle(&mut maps.classes);
 	if cfg.swap_calamus { swap(&mut cal); }
